@@ -550,7 +550,7 @@ class C16:
         if not self.caps:
             rec.inconclusive("could not drop DAC capabilities: permission failures are not real")
         root = self.base
-        for h in range(sh["n"]):
+        for h in harness.budgeted(range(sh["n"]), rec):
             env = dict(PUSHD_MINUS=rng.random() < 0.3, AUTO_PUSHD=rng.random() < 0.3, DIRSTACK_SIZE=rng.choice([0, 1, 3, 20, 20]), CDPATH=rng.choice([[], [], ["C"], ["A", "B"]]))
             steps = [self.gen_step(rng, root, 0) for _ in range(sh["steps"])]
             case = {"env": env, "steps": steps, "roundtrip": rng.choice(["A", "B", "lnk", root + "/C"])}
